@@ -850,7 +850,16 @@ class Analysis:
                 if rhs is not None:
                     # copy_u = (zeros > 0 || rp == up): when the flag is false every disjunct is false
                     pairs = frozenset()
-                    djs, todo = [], [sa.strip_expect(rhs)]
+                    top_ = sa.strip_expect(rhs)
+                    while isinstance(top_, dict) and top_.get("k") in ("cast", "paren"):
+                        top_ = top_["e"]
+                    if isinstance(top_, dict) and top_.get("k") == "cond":
+                        zb = top_["b"]
+                        while isinstance(zb, dict) and zb.get("k") in ("cast", "paren"):
+                            zb = zb["e"]
+                        if isinstance(zb, dict) and zb.get("k") == "int" and zb["v"] == 0:
+                            top_ = top_["c"]          # n = (p == q ? len : 0): n == 0 unless the pointers are equal (a zero length needs no copy)
+                    djs, todo = [], [sa.strip_expect(top_)]
                     while todo:
                         x = todo.pop()
                         while isinstance(x, dict) and x.get("k") == "cast":
@@ -1160,6 +1169,21 @@ class Analysis:
             neg = not neg
         if isinstance(c, dict) and c.get("k") == "var" and c["id"] in st.flags and (truth != neg) is False:
             return ne | st.flags[c["id"]]
+        # flag != 0 / flag == 0, and sums of such flags (dcopy + ncopy != 0): on the edge where the value is zero every flag is zero
+        if isinstance(c, dict) and c.get("k") == "binop" and c["op"] in ("==", "!="):
+            for a_, b_ in ((c["l"], c["r"]), (c["r"], c["l"])):
+                while isinstance(b_, dict) and b_.get("k") == "cast":
+                    b_ = b_["e"]
+                if isinstance(b_, dict) and b_.get("k") == "int" and b_["v"] == 0:
+                    fl = self.flag_vars(a_, st)
+                    if fl:
+                        zero_edge = (c["op"] == "==") == (truth != neg)
+                        if zero_edge:
+                            out = ne
+                            for v_ in fl:
+                                out = out | st.flags[v_]
+                            return out
+                        return ne
         if isinstance(c, dict) and c.get("k") == "binop" and c["op"] in ("<", ">", "<=", ">="):
             # ALLOC(z) < n  /  n > ALLOC(z): on the edge where the allocation suffices it is known to be >= n
             t = truth != neg
@@ -1196,6 +1220,17 @@ class Analysis:
                 return ne | {("eq", min(ra[1], rb[1]), max(ra[1], rb[1]))}      # R-CONSTSRC: this path exists only for the same variable
             return ne | {frozenset((ra[1], rb[1]))}
         return ne
+
+    def flag_vars(self, e, st):
+        """the flag variables whose sum / disjunction e is (all non-negative, so e == 0 means each is 0), or None"""
+        while isinstance(e, dict) and e.get("k") in ("cast", "paren"):
+            e = e["e"]
+        if isinstance(e, dict) and e.get("k") == "var":
+            return [e["id"]] if e["id"] in st.flags else None
+        if isinstance(e, dict) and e.get("k") == "binop" and e["op"] in ("+", "|", "||"):
+            l, r = self.flag_vars(e["l"], st), self.flag_vars(e["r"], st)
+            return l + r if l and r else None
+        return None
 
     def int_cond(self, cond, st):
         """truth of a relational condition between two integer terms whose difference is a constant, else None"""
